@@ -279,7 +279,7 @@ func (sc *Scenario) predict(n int) []span {
 	t := sc.subInstant()
 	for i := 0; i < n; i++ {
 		a := sc.attempt(i)
-		if queryInvalid(sc.Query) {
+		if queryInvalid(sc.Query, sc.Client == "cache") {
 			a = Attempt{Conn: "err", Sub: "ok", End: "err"} // every attempt fails at once
 		}
 		s := span{start: t}
